@@ -118,7 +118,7 @@ def run(ctx, rep):
     errs = node_calls(cfg, "_on_error")
     good = len(ch) == 1 and len(safes) == 1 and len(errs) == 1
     if good:
-        good = cfg.dominates(ch[0][0].id, safes[0].id) and not cfg.guards(ch[0][0].id)
+        good = cfg.dominates(ch[0][0].id, safes[0].id) and cfg.unconditional(ch[0][0].id)
         gs = [(utext(g.exprs[0]), pol) for g, pol in cfg.guards(errs[0][0].id)]
         good = good and gs == [("self.safe", False)]
         good = good and utext(errs[0][1].args[0]) == v.params[1]
@@ -164,7 +164,7 @@ def run(ctx, rep):
     snh = prog.own_method("MaxTransactionCount", "_set_next_hour")
     cfg = ctx.cfg(snh)
     zero = {utext(n.ast.targets[0]) for n in cfg.live_nodes() if n.kind == "stmt" and isinstance(n.ast, ast.Assign)
-            and utext(n.ast.value) == "0" and not cfg.guards(n.id)}
+            and utext(n.ast.value) == "0" and cfg.unconditional(n.id)}
     nh = [n for n in cfg.live_nodes() if n.kind == "stmt" and isinstance(n.ast, ast.Assign)
           and utext(n.ast.targets[0]) == "self._next_hour"]
     good = zero == {"self." + h for h in HOURLY} and len(nh) == 1 and "timedelta(hours=1)" in utext(nh[0].ast.value) \
@@ -183,7 +183,7 @@ def run(ctx, rep):
     cfg = ctx.cfg(ac)
     if good:
         n = [x for x in cfg.live_nodes() if calls[0] in walk_calls(x.exprs)][0]
-        good = not cfg.guards(n.id)
+        good = cfg.unconditional(n.id)
     rep.check(good, "R5", key(ac, None, "every client gets its own MaxTransactionCount"), ac)
     acc = prog.own_method("BaseFlumine", "add_client_control")
     aps = [c for c in walk_calls(acc.node.body) if call_name(c) == "append"]
@@ -209,6 +209,11 @@ def run(ctx, rep):
     # ------------------------------------------------------------------ R6 count table
     from rules.c12 import r5_counts
     r5_counts(ctx, rep, "R6")
+    # what is charged is len(order_package): the orders that were sent.  The package's filter may depend only
+    # on a state fixed before sending (VIOLATION): one that follows the orders' later progress (completed
+    # while the request was in flight) would make the charge smaller than what the exchange counted
+    from rules.c02 import _r7
+    _r7(ctx, rep, "R6")
 
 
 def _walk(cfg, atom_eval):
@@ -299,4 +304,8 @@ MUTANTS = [
          func="SimulatedExecution.execute_replace",
          old="        order_package.client.add_transaction(len(order_package))\n", new="", expect=["R6"],
          why="replacement bets not counted"),
+    dict(id="c18-package-filter-follows-progress", file="flumine/order/orderpackage.py", func="BaseOrderPackage.orders",
+         old="return [o for o in self._orders if o.status != OrderStatus.VIOLATION]",
+         new="return [o for o in self._orders if o.status not in (OrderStatus.VIOLATION, OrderStatus.EXECUTION_COMPLETE)]",
+         expect=["R6"], why="orders completed in flight are not charged"),
 ]
